@@ -268,7 +268,7 @@ HIST = {
  "M-C12-6": "reported by C01, which owns the mixed-exponent alignment incl. radix 10; C12's native-tag wrappers are radix 2",
  "M-C08-7": "missed at first: the direction lines pinned a divisor of the dividend's own type only. Mixed-signedness lines (six type pairs with a signed common type, wrapper and built-in divisor) added; they report it, and on the pinned tree they found defect D24 (tie_to_pos_inf negating a uint32_t dividend in its own type), fixed in 10fd667",
  "M-C20-5": "missed at first: the exp2 structure kernels cut evaluate_polynomial out as an uninterpreted function and nothing else looked inside it for x != 0. Horner kernel added (evaluate_polynomial of the 32-bit format == the degree-7 recurrence for every x); the 8/16-bit formats are not claimed (normaliser incompleteness, see the spec)",
- "M-C19-7": "not reported as a violation: C19 exits 2 (analysis-broken) - the run-time shortcut removes both loops from every compiled instance, so the start-bit and termination rules lose all their instances and the floors fail. Whether floor(sqrt(double(x))) is the integer square root is a floating-point question the check does not decide",
+ "M-C19-7": "reported at first as exit 2 only (analysis-broken: the run-time shortcut removes both loops from every compiled instance, so the start-bit and termination rules lost their instances). Information-flow rule added to C19: for the 64-bit reps the operand reaches the result only through a 53-bit conversion, and the rule names two operands with different roots and the same double",
  "M-C10-5": "reported by the limb algebra's -- kernels of the 8- and 16-bit limb types (C10)",
  "M-C07-7": "reported by the reachability rule: an internal unreachable state in the NDEBUG kernels of the trapping tag (C07), and by C06's handler lines",
  "M-C20-4": "reported by the exp2 structure kernels of the unsigned 32-bit reps (the defect D23 coming back)",
